@@ -1,9 +1,17 @@
 -- Root of the `Compress` library: executable models (core-only), generated facts,
--- proofs and property theorems.
-import Compress.Util
-import Compress.XFlate.Index
-import Compress.XFlate.Reader
-import Compress.Bits
-import Compress.Meta.Codec
-import Compress.XFlate.Open
-import Compress.XFlate.ReaderSpec
+-- proofs and property theorems. `lake build Compress` checks everything.
+import Compress.Props.C05
+import Compress.Props.C06
+import Compress.Props.C07
+import Compress.Props.C13
+import Compress.Props.C16
+import Compress.Props.C18
+import Compress.Props.C20
+import Compress.Facts.Consts
+import Compress.Facts.Sites
+import Compress.Proofs.Window
+import Compress.Proofs.BitIO
+import Compress.Proofs.Bzip2Stages
+import Compress.Proofs.Bzip2BWT
+import Compress.Flate.Impl
+import Compress.Bzip2.Spec
